@@ -33,6 +33,7 @@ type Oblig struct {
 	Trivial bool
 	SMTSize int
 	TimeMul int  // timeout multiplier
+	Retried bool // answered only by the second-chance pass of runBatch
 	Cover   bool // vacuity guard: the hypotheses must be satisfiable (expected answer: sat)
 }
 
